@@ -216,9 +216,10 @@ class Check:
         self.say("%s tier=%s obligations=%d holds=%d refuted=%d unknown=%d known=%d new=%d canaries=%d/%d wall=%.2fs" % (
             self.pid, self.tier, n_ob, n_ok, n_bad, n_unk, len(listed), len(new),
             sum(1 for c in self.canaries if c["fired"]), len(self.canaries), wall))
-        if self.errors:
-            return 2
         if new:
+            # a refuted clause is a violation even if another clause could not be analysed
             print("VIOLATION property=%s replay=%s" % (self.pid, replay))
             return 1
+        if self.errors:
+            return 2
         return 0
